@@ -103,3 +103,5 @@ def run(ctx):
         ctx.note('rotation points tabulated', n)
         ctx.check('rol/ror are rotations', bad is None, 'width %s value %s amount %s: %s' % (bad or (0, 0, 0, 0)), ctx.where(OPS, 'rol'))
     ctx.guard('rotations', rot)
+
+    dependencies(ctx, ['crysp/bits.py', 'crysp/utils/operators.py'], 'C08')
